@@ -166,7 +166,7 @@ def run_multiple(chk, want):
     bad_merge, bad_iter, fails = [], [], []
     bad_prog, bad_split = [], []
     nprog = nsplit = 0
-    n = chk.n(500, 6000)
+    n = chk.n(1200, 6000)
     nmerge = 0
     npass = 0
     for it in range(n):
@@ -285,7 +285,7 @@ def run_wordlist_alignments(chk):
     from lingpy import Alignments
     rng = chk.rng
     fails = []
-    n = chk.n(40, 800)
+    n = chk.n(120, 800)
     for it in range(n):
         d = wlgen.gen_wordlist(rng, with_tokens=True, with_cogid=True, min_langs=2, max_langs=5, max_concepts=4)
         try:
@@ -323,7 +323,7 @@ def run_mult_align(chk):
     from lingpy.align.multiple import mult_align
     rng = chk.rng
     fails = []
-    n = chk.n(60, 1500)
+    n = chk.n(200, 1500)
     for it in range(n):
         k = rng.choice([2, 3, 4, 5])
         alpha = 'abcde'[:rng.choice([2, 3, 5])]
